@@ -50,3 +50,4 @@ from contracts.c05 import SyncHB_report_as_failed, I_sbm_on_result, SyncHB_on_tr
 from pyvc.native import native_monitor  # noqa: E402
 
 EXTRA_CHECKS = (list(EXTRA_CHECKS) if 'EXTRA_CHECKS' in globals() else []) + [native_monitor("C13", "contracts.c13_native", "monitor_failures", "failures", "1490 (thorough 6826) scenarios: real Tuner runs with failures placed before the first report / between reports / after a resume / stopped from outside (12 scheduler set-ups x 10 placements x 3 failure limits), searchers with restrict_configurations, GP searcher state before and after every failure, asynchronous and synchronous Hyperband, DEHB, PBT, MOASHA and the median rule against reference models")]
+EXTRA_CHECKS = list(EXTRA_CHECKS) + [native_monitor("C13", "contracts.c05_native", "monitor_sync", "sync-hyperband", "the synchronous Hyperband / DEHB monitor of C05: every failure subset and return order (a failed job fills its slot, the rung completes, the others are promoted by the rule; a request for work raises only in the recorded DEHB situations)")]
